@@ -1,6 +1,7 @@
 """Shared machinery of the /verif checks: scratch directory, harness build, TLC runner,
 candidate violations, known findings, replay files, evidence."""
 import hashlib
+import threading
 import json
 import os
 import re
@@ -59,6 +60,7 @@ class Run:
         self.notes = []
         self.tlc_runs = []
         self._n = 0
+        self._lock = threading.Lock()
 
     # ---------------------------------------------------------------- scratch
     def path(self, name):
@@ -113,8 +115,9 @@ class Run:
         return p
 
     def _next(self):
-        self._n += 1
-        return self._n
+        with self._lock:
+            self._n += 1
+            return self._n
 
     # ---------------------------------------------------------------- TLC
     def tlc(self, module, cfg, workers=None, timeout=900, files=(), simulate=None, depth_first=False,
